@@ -152,6 +152,10 @@ func (ds *dataStore) load(fileName string) (err error) {
 		if flagHasOne(pkh.Flags, FLAG_KEY_TYPE_STRING) {
 			var str []byte
 			err = dec.Decode(&str)
+			if str == nil {
+				// gob leaves an empty slice nil, and a nil payload reads as "another type"
+				str = []byte{}
+			}
 			payload = str
 		} else if flagHasOne(pkh.Flags, FLAG_KEY_TYPE_HASH_TABLE) {
 			var table map[string]string
